@@ -548,6 +548,19 @@ class _RowView(_Vec2):
         return _Vec2([v * o for v in self.vals])
 
 
+def _rat_sqrt(q):
+    """exact square root of a non-negative Fraction, or None"""
+    import math as _m
+
+    if q < 0:
+        return None
+    n, d = q.numerator, q.denominator
+    rn, rd = _m.isqrt(n), _m.isqrt(d)
+    if rn * rn == n and rd * rd == d:
+        return F(rn, rd)
+    return None
+
+
 class _LinAlg:
     @staticmethod
     def cholesky(M):
@@ -555,11 +568,32 @@ class _LinAlg:
             return real_np.linalg.cholesky(M)
         # lower-triangular L with L L^T = M, positive diagonal: entries are fresh reals with
         # their defining equations (M symmetric positive definite assumed = precondition of numpy)
+        m = M.m
+        # concrete rational matrix with rational square roots (grid scales / rational rotations):
+        # compute exactly instead of introducing fresh non-linear variables
+        vals = []
+        for v in (m[0][0], m[1][0], m[1][1]):
+            t = z3.simplify(_z(v)) if isinstance(v, Sym) else _z(v)
+            t = z3.simplify(t)
+            if z3.is_rational_value(t):
+                vals.append(F(t.numerator_as_long(), t.denominator_as_long()))
+            elif z3.is_int_value(t):
+                vals.append(F(t.as_long()))
+            else:
+                vals = None
+                break
+        if vals is not None:
+            a00, a10, a11 = vals
+            r00 = _rat_sqrt(a00)
+            if r00 is not None and r00 > 0:
+                r10 = a10 / r00
+                r11 = _rat_sqrt(a11 - r10 * r10)
+                if r11 is not None and r11 > 0:
+                    return Mat2([[symx.rconst(r00), 0.0], [symx.rconst(r10) if r10 != 0 else 0.0, symx.rconst(r11)]])
         c = symx.ctx()
         c.fresh_n += 1
         k = c.fresh_n
         l00, l10, l11 = z3.Real(f"_L00_{k}"), z3.Real(f"_L10_{k}"), z3.Real(f"_L11_{k}")
-        m = M.m
         c.add(z3.And(l00 > 0, l11 > 0))
         c.add(l00 * l00 == _z(m[0][0]))
         c.add(l10 * l00 == _z(m[1][0]))
@@ -689,10 +723,10 @@ class NP:
                 r = a._map(lambda v: symx.s_min(symx.s_max(v, lo), hi))  # merging: pure LIA
             else:
                 r = a._map(lambda v: f_clip(v, lo, hi))
-            if out is not None:
+            if out is not None and isinstance(out, SymArray):
                 out.data = r.data
                 return out
-            return r
+            return r  # callers use the return value (``xx = np.clip(xx, 0, nx, out=xx)``)
         return real_np.clip(a, lo, hi, out=out)
 
     @staticmethod
